@@ -56,7 +56,13 @@ B. LIBRARY SIDE — quantem is imported lazily inside the functions.
         obj_model, probe_model, detector_model, num_patterns, seeds, degenerate
    Problem methods (all through public quantem API):
         set_probe(arr)            public probe setter
-        set_object(arr)           fresh ObjectPixelated.from_array + Ptychography.preprocess (no object setter exists)
+        install_order(modes)      modes re-ordered as cfg["mode_order"] asks (callers installing a probe of their own
+                                  under a mode_order use set_probe(P.install_order(arr)))
+        probe_readback()          the public Ptychography.probe property (hard constraints applied), complex128
+        set_probe_model(arr)      fresh ProbePixelated (any mode count) via the public `ptycho.probe_model` setter +
+                                  Ptychography.preprocess + public probe setter
+        set_object(arr, thicknesses=None)   fresh ObjectPixelated.from_array + Ptychography.preprocess (no object setter
+                                  exists); other thicknesses / another slice count than the build are allowed
         set_loss_type(lt)         ptycho.reconstruct(num_iters=0, loss_type=lt): makes dset.targets match lt
         predict(idx=None)         dset.forward -> probe_model.forward -> obj_model.forward -> forward_operator
                                   -> detector_model.forward ; returns a torch tensor (batch,R,C) with graph
@@ -89,6 +95,8 @@ CONFIG (all JSON-able; missing keys take the defaults in DEFAULTS):
    dose       total probe intensity = mean pattern intensity
    defocus, mode_defocus_step (Angstrom), aperture_frac (of the smaller Nyquist frequency)
    phase_sigma  rad, standard deviation of the object phase
+   mode_order None | permutation of range(modes): order in which build() installs the ground-truth modes (which are
+              built strongest first, weights 1, 1/4, 1/9); probe_true keeps the strongest-first order
    tie        "even" | "up": which pixel the SIMULATOR takes as patch origin when a position is an exact half-pixel
               tie (round-half-to-even like numpy/torch round, or floor(p+0.5)); the fractional shift follows
               (position - origin), so either choice is self-consistent.  geometry() also reports .ties / .exact_ties
@@ -126,6 +134,7 @@ DEFAULTS = {
     "learn_scan_positions": False,
     "learn_descan": False,
     "tie": "even",
+    "mode_order": None,
 }
 STEP_KINDS = {"commensurate": (2.0, 2.0), "fractional": (1.3, 1.7)}
 OBJECT_PERTURBATIONS = ("kick", "ramp", "noise")
@@ -161,6 +170,10 @@ def normalise(cfg: dict) -> dict:
     c["thicknesses"] = [float(v) for v in c["thicknesses"]]
     if len(c["thicknesses"]) != S - 1:
         raise ValueError("thicknesses must have slices-1 entries")
+    if c["mode_order"] is not None:
+        c["mode_order"] = [int(v) for v in c["mode_order"]]
+        if sorted(c["mode_order"]) != list(range(int(c["modes"]))):
+            raise ValueError("mode_order must be a permutation of range(modes)")
     if isinstance(c["step"], str):
         c["step_px"] = list(STEP_KINDS[c["step"]])
     else:
@@ -370,24 +383,54 @@ class Problem(types.SimpleNamespace):
     def set_probe(self, arr):
         self.probe_model.probe = np.asarray(arr).astype(np.complex64)
 
-    def _new_obj_model(self, arr):
+    def install_order(self, modes):
+        """The (M,R,C) modes in the order in which cfg["mode_order"] wants them installed (identity when None)."""
+        perm = self.cfg.get("mode_order")
+        return np.asarray(modes) if perm is None else np.asarray(modes)[list(perm)]
+
+    def probe_readback(self):
+        """The probe as the public Ptychography.probe property returns it (hard constraints applied), complex128."""
+        return np.asarray(self.ptycho.probe).astype(np.complex128)
+
+    def _probe_params(self):
+        c = self.cfg
+        return {"energy": c["energy"], "defocus": c["defocus"], "semiangle_cutoff": 1e3 * self.lam * c["aperture_frac"] * min(0.5 / self.geo.sampling)}
+
+    def set_probe_model(self, arr):
+        """Attach a FRESH ProbePixelated (any number of modes) through the public `ptycho.probe_model` setter,
+        re-run Ptychography.preprocess, then install `arr` through the public probe setter."""
+        from quantem.diffractive_imaging.probe_models import ProbePixelated
+
+        a = np.asarray(arr).astype(np.complex64)
+        self.probe_model = ProbePixelated.from_array(a, probe_params=self._probe_params(), rng=self.seeds["probe"])
+        self.ptycho.probe_model = self.probe_model
+        self.ptycho.preprocess(obj_padding_px=tuple(self.cfg["pad"]), plot_rotation=False, plot_com=False)
+        self.set_probe(a)
+
+    def _new_obj_model(self, arr, thicknesses=None):
         from quantem.diffractive_imaging.object_models import ObjectPixelated
 
         c = self.cfg
         a = np.asarray(arr)
         a = a.astype(np.float32) if c["obj_type"] == "potential" else a.astype(np.complex64)
+        if thicknesses is None:
+            thicknesses = c["thicknesses"]
+        thicknesses = [float(v) for v in thicknesses]
+        if len(thicknesses) != a.shape[0] - 1:
+            raise ValueError("need one thickness per slice gap of the installed object")
         return ObjectPixelated.from_array(
             a,
             obj_type=c["obj_type"],
-            slice_thicknesses=(c["thicknesses"] if c["slices"] > 1 else None),
+            slice_thicknesses=(thicknesses if a.shape[0] > 1 else None),
             rng=self.seeds["object"],
         )
 
-    def set_object(self, arr):
+    def set_object(self, arr, thicknesses=None):
         """There is no public object setter: a fresh ObjectPixelated.from_array is attached and
-        Ptychography.preprocess re-run (the dataset stays preprocessed; the probe is re-installed)."""
+        Ptychography.preprocess re-run (the dataset stays preprocessed; the probe is re-installed).
+        `thicknesses` (default cfg["thicknesses"]) may differ from the build; the slice count is arr.shape[0]."""
         probe_now = self.probe_model.probe.detach().cpu().numpy()
-        self.obj_model = self._new_obj_model(arr)
+        self.obj_model = self._new_obj_model(arr, thicknesses)
         self.ptycho.obj_model = self.obj_model
         self.ptycho.preprocess(obj_padding_px=tuple(self.cfg["pad"]), plot_rotation=False, plot_com=False)
         self.set_probe(probe_now)
@@ -501,12 +544,10 @@ def build(cfg: dict, rng, obj_init=None, probe_init=None, sim=None) -> Problem:
     )
     P.dset = dset
     P.obj_model = P._new_obj_model(P.obj_true if obj_init is None else obj_init)
-    start_probe = P.probe_true if probe_init is None else np.asarray(probe_init)
-    P.probe_model = ProbePixelated.from_array(
-        start_probe.astype(np.complex64),
-        probe_params={"energy": c["energy"], "defocus": c["defocus"], "semiangle_cutoff": 1e3 * P.lam * c["aperture_frac"] * min(0.5 / geo.sampling)},
-        rng=seeds["probe"],
-    )
+    # ground-truth modes are built strongest first; cfg["mode_order"] installs them in another order (the incoherent
+    # mode sum does not depend on it)
+    start_probe = P.install_order(P.probe_true) if probe_init is None else np.asarray(probe_init)
+    P.probe_model = ProbePixelated.from_array(start_probe.astype(np.complex64), probe_params=P._probe_params(), rng=seeds["probe"])
     P.detector_model = DetectorPixelated()
     P.ptycho = Ptychography.from_models(
         dset=dset, obj_model=P.obj_model, probe_model=P.probe_model, detector_model=P.detector_model, rng=seeds["ptycho"], verbose=0
